@@ -626,7 +626,7 @@ func init() {
 			c.Extra["functions_with_back_edge_taken"] = sortedKeys(loops)
 			c.Extra["step_call_graph_acyclic"] = stepCallCycle(c.L) == ""
 		},
-		Bounds: map[string]interface{}{"steps": 1, "encodings": "all 1786 with the ideal bus and with IO == nil; requests: Type and IM arbitrary ints, IFF1 arbitrary, len(Data) 0..4 and 5, 6, 8, 12 (long data, instructions with data accesses), PC anywhere and PC = 0xFFFF; quick pins the first one or two supplied bytes to 23 opcode/prefix choices, thorough leaves them symbolic", "short_memories": "DumbMemory of symbolic length 0..65536 and DumbIO 0..256, MapMemory with <= 3 arbitrary entries: quick 16 encodings, thorough all"},
+		Bounds: map[string]interface{}{"steps": 1, "encodings": "all 1786 with the ideal bus and with IO == nil; requests: Type and IM arbitrary ints, IFF1 arbitrary, len(Data) 0..4 and 5, 6, 8, 12 (long data, instructions with data accesses), PC anywhere and PC = 0xFFFF; quick pins the first one or two supplied bytes to 23 opcode/prefix choices, thorough leaves them symbolic", "short_memories": "DumbMemory and DumbIO of symbolic length 0..65536 (a DumbIO longer than 256 is legal), MapMemory with <= 3 arbitrary entries: quick 16 encodings, thorough all"},
 		Assume: []string{"Memory non-nil (documented precondition)", "MapMemory initialised (non-nil map)", "liveness of arbitrary programs under Run is outside: Run returns in the iteration in which Step sets HALT (C08)", "log.Printf does not panic"},
 		Stubs:  stepStubs,
 		Rule:   "every implicit/explicit panic site reached on an explored path is an obligation (index, slice bounds, nil dereference, nil map write, type assertion, division, panic); plus 'consumed' obligations for the 856 unsupported encodings; termination = every path ends inside the unwinding/call-depth bounds (loops and recursion are recorded, not forbidden)",
@@ -794,7 +794,7 @@ func init() {
 			}
 			return jobs
 		},
-		Bounds: map[string]interface{}{"slices": "length symbolic 0..65536 (DumbIO 0..256), any address/port/value", "put": "data length 0..4 (thorough 0..8), case split", "maps": "arbitrary initial maps with <= 3 (thorough 4) entries (symbolic keys, presence bits and values; iteration order = any permutation by symmetry of the symbolic keys); range loops unwound with an unwinding assertion"},
+		Bounds: map[string]interface{}{"slices": "length symbolic 0..65536 (DumbIO too: a slice longer than 256 ports is legal), any address/port/value", "put": "data length 0..4 (thorough 0..8), case split", "maps": "arbitrary initial maps with <= 3 (thorough 4) entries (symbolic keys, presence bits and values; iteration order = any permutation by symmetry of the symbolic keys); range loops unwound with an unwinding assertion"},
 		Assume: []string{"reflect.DeepEqual by its documented contract (maps equal iff same keys with equal values, nil != empty)", "MapMemory initialised (non-nil); DumbMemory.Put is claimed only for a block inside the slice (the property's precondition)", "histories of operations: by induction from the one-step refinement (paper step)"},
 		Stubs:  []string{"reflect.DeepEqual (contract)"},
 		Rule:   "one job per method / size; obligations compare the method's result and the post-state at an arbitrary probe address with the byte-map model",
